@@ -237,34 +237,6 @@ theorem hasElement_noinv {v e r : Value} {h : Option Int} (hr : hasElement v e h
 
 /-! ### the three compositions: `NotEqual`, `LessThanOrEqualTo`, `GreaterThanOrEqualTo` -/
 
-mutual
-theorem markerWF_of_clean : ∀ p : Payload, p.containsMarked = false → p.markerWF = true
-  | .marked _ _, h => by simp [Payload.containsMarked] at h
-  | .seq vs, h => by simpa [Payload.markerWF] using markerWFL_of_clean vs (by simpa [Payload.containsMarked] using h)
-  | .smap _ vs, h => by simpa [Payload.markerWF] using markerWFL_of_clean vs (by simpa [Payload.containsMarked] using h)
-  | .sset _ vs, h => by simpa [Payload.markerWF] using markerWFL_of_clean vs (by simpa [Payload.containsMarked] using h)
-  | .null, _ | .unk _, _ | .b _, _ | .n _, _ | .s _, _ | .caps, _ | .bad _, _ => by simp [Payload.markerWF]
-theorem markerWFL_of_clean : ∀ vs : List Payload, Payload.containsMarkedL vs = false → Payload.markerWFL vs = true
-  | [], _ => rfl
-  | v :: vs, h => by
-    simp only [Payload.containsMarkedL, Bool.or_eq_false_iff] at h
-    simp [Payload.markerWFL, markerWF_of_clean v h.1, markerWFL_of_clean vs h.2]
-end
-
-mutual
-theorem setsClean_of_clean : ∀ p : Payload, p.containsMarked = false → p.setsClean = true
-  | .marked _ _, h => by simp [Payload.containsMarked] at h
-  | .seq vs, h => by simpa [Payload.setsClean] using setsCleanL_of_clean vs (by simpa [Payload.containsMarked] using h)
-  | .smap _ vs, h => by simpa [Payload.setsClean] using setsCleanL_of_clean vs (by simpa [Payload.containsMarked] using h)
-  | .sset _ vs, h => by simpa [Payload.setsClean, Payload.containsMarked] using h
-  | .null, _ | .unk _, _ | .b _, _ | .n _, _ | .s _, _ | .caps, _ | .bad _, _ => by simp [Payload.setsClean]
-theorem setsCleanL_of_clean : ∀ vs : List Payload, Payload.containsMarkedL vs = false → Payload.setsCleanL vs = true
-  | [], _ => rfl
-  | v :: vs, h => by
-    simp only [Payload.containsMarkedL, Bool.or_eq_false_iff] at h
-    simp [Payload.setsCleanL, setsClean_of_clean v h.1, setsCleanL_of_clean vs h.2]
-end
-
 theorem Clean.marksWF {r : Value} (h : r.Clean) : r.MarksWF := ⟨markerWF_of_clean _ h, setsClean_of_clean _ h⟩
 
 theorem isMarked_of_clean {p : Payload} (h : p.containsMarked = false) : p.isMarked = false := by
